@@ -37,7 +37,7 @@ func (c11) Cases(tier string, race bool) int {
 
 func (c11) Case(c *core.Ctx) {
 	r := c.R
-	keys := []string{"a", "b", "c", "k", "doc", "Kk", "a-B"}
+	keys := keyAlphabet(r, []string{"a", "b", "c", "k", "doc", "Kk", "a-B"})
 	var gen func(depth int) interface{}
 	gen = func(depth int) interface{} {
 		x := r.Intn(10)
@@ -215,6 +215,10 @@ func (c11) Case(c *core.Ctx) {
 		exp := jv.Copy(root).(jv.M)
 		act := jv.Copy(root).(jv.M)
 		nn := []string{"a", "b", "c", "k", "fresh", "doc", last, "Kk", "kk", "a-B", "a_b"}[r.Intn(11)]
+		if &keys[0] == &hostileKeys[0] && r.Intn(2) == 0 {
+			// a name that differs from an existing sibling only by a blank at an edge, a digit string, a name with '/'
+			nn = append([]string{last + " ", " " + last, strings.TrimSpace(last), "c "}, hostileKeys...)[r.Intn(4+len(hostileKeys))]
+		}
 		err := mxj.Map(act).RenameKey(path, nn)
 		p, ex, pim, listOnWay, _ := nav(exp)
 		det := core.D{"op": "RenameKey", "map": before, "path": path, "newName": nn, "after": jv.Show(act), "err": fmt.Sprint(err)}
